@@ -24,7 +24,9 @@ LEVEL = "exploration"
 RULE = (
     "A case = one proxied call: (method kind: coroutine returning / coroutine raising / plain "
     "returning None / plain returning a value / plain raising / non-callable attribute) x (caller: "
-    "owner loop, other thread's loop) x (owner-loop state: running, being stopped, closed), issued in "
+    "owner loop, other thread's loop; wrapper looked up at the call, or earlier on the owner loop / on "
+    "another loop / in a thread with no loop) x (owner-loop state: open but not started, between two run "
+    "phases, running, being stopped, closed), issued in "
     "bursts from 2-4 caller threads with seeded GIL yields injected on the lines of bellows/thread.py. "
     "Non-trivial = cross-thread calls; distinct = distinct (method kind, caller kind, loop state, "
     "observed outcome, number of yields injected during the call capped at 3) tuples."
@@ -38,7 +40,8 @@ ASSUMPTIONS = [
 ]
 REACH = {t: ["co_value_cross_running", "co_raise_cross_running", "plain_none_cross_running", "plain_value_cross_running",
              "plain_raise_cross_running", "attr_cross_running", "owner_loop_calls", "cross_stopping", "cross_closed",
-             "closed_coroutine_call", "yield_injected_in_dispatch", "four_caller_threads"] for t in ("quick", "thorough")}
+             "closed_coroutine_call", "yield_injected_in_dispatch", "four_caller_threads", "wrapper_looked_up_elsewhere",
+             "queued_while_not_running_not_started", "queued_while_not_running_between_run_phases"] for t in ("quick", "thorough")}
 SHARD_TIMEOUT = {"quick": 300, "thorough": 900}
 KINDS = ["co_value", "co_raise", "plain_none", "plain_value", "plain_raise", "attr"]
 
@@ -172,12 +175,31 @@ def run_shard(desc) -> Acc:
             tagc[0] += 1
             return tagc[0]
 
-    async def one_call(proxy, kind, caller, state, rnd):
+    async def one_call(proxy, kind, caller, state, rnd, saved=None):
         tag = newtag()
         y0 = inj.count()
         outcome = None
         try:
-            if kind == "attr":
+            if saved is not None and kind != "attr":
+                # the wrapper was looked up earlier, in another context (another loop / no loop)
+                if isinstance(saved.get(kind), BaseException):
+                    raise saved[kind]
+                res = saved[kind](tag)
+                with rlock:
+                    saved_calls[0] += 1
+                if inspect.isawaitable(res):
+                    try:
+                        v = await asyncio.wait_for(res, 3.0 if state == "running" else 0.7)
+                        outcome = ("value", v)
+                    except ProbeError as e:
+                        outcome = ("ProbeError", e.args[0])
+                    except asyncio.TimeoutError:
+                        outcome = ("unresolved",)
+                    except asyncio.CancelledError:
+                        outcome = ("cancelled",)
+                else:
+                    outcome = ("returned", res)
+            elif kind == "attr":
                 try:
                     proxy.attr
                     outcome = ("no-error",)
@@ -206,22 +228,137 @@ def run_shard(desc) -> Acc:
         with rlock:
             results.append((tag, kind, caller, state, outcome, min(3, inj.count() - y0)))
 
-    def caller_thread(proxy, n, state, seed, stop_evt):
+    saved_calls = [0]
+
+    def lookup_all(proxy):
+        out = {}
+        for k in KINDS:
+            if k != "attr":
+                try:
+                    out[k] = getattr(proxy, k)
+                except BaseException as e:  # noqa: BLE001
+                    out[k] = e
+        return out
+
+    def caller_thread(proxy, n, state, seed, stop_evt, saved_sets=()):
         rnd = random.Random(seed)
+        # wrappers looked up in this thread before any loop runs in it
+        mine = [lookup_all(proxy)] if saved_sets else []
 
         async def w():
             for _ in range(n):
                 if stop_evt is not None and stop_evt.is_set() and state == "stopping":
                     pass
-                await one_call(proxy, rnd.choice(KINDS), "other", state, rnd)
+                sv = None
+                if saved_sets and rnd.random() < 0.35:
+                    sv = rnd.choice(list(saved_sets) + mine)
+                await one_call(proxy, rnd.choice(KINDS), "other", state, rnd, sv)
                 if rnd.random() < 0.1:
                     await asyncio.sleep(0)
 
         asyncio.run(w())
 
+    async def paused_owner_phase(rd):
+        """The owner's loop is open but not running at the instant of the call (not started yet,
+        or between two run phases): the call is queued, and executes - on the owner's thread -
+        as soon as the loop runs; coroutine results are relayed then."""
+        ready, gate1, mid, gate2 = (threading.Event() for _ in range(4))
+        box = {}
+
+        def owner_main():
+            loop = asyncio.new_event_loop()
+            asyncio.set_event_loop(loop)
+            box["loop"], box["ident"] = loop, threading.get_ident()
+            ready.set()
+            gate1.wait(10)
+            loop.run_until_complete(asyncio.sleep(0.02))
+            mid.set()
+            gate2.wait(10)
+            loop.run_forever()
+            loop.close()
+
+        th = threading.Thread(target=owner_main)
+        th.start()
+        while not ready.is_set():
+            await asyncio.sleep(0.001)
+        probe = Probe()
+        proxy = bt.ThreadsafeProxy(probe, box["loop"])
+        r2 = random.Random(desc["seed"] * 3 + rd)
+        pend = []  # (tag, kind, when, immediate result)
+
+        def issue(when):
+            for kind in [k for k in KINDS if k != "attr"] * 2:
+                tag = newtag()
+                try:
+                    res = getattr(proxy, kind)(tag)
+                except BaseException as e:  # noqa: BLE001
+                    res = e
+                pend.append((tag, kind, when, res))
+
+        issue("not-started")
+        await asyncio.sleep(0.005)
+        with probe.lock:
+            early = list(probe.log)
+        gate1.set()
+        while not mid.is_set():
+            await asyncio.sleep(0.001)
+        issue("between-run-phases")
+        gate2.set()
+        outcomes = {}
+        for (tag, kind, when, res) in pend:
+            if inspect.isawaitable(res):
+                try:
+                    outcomes[tag] = ("value", await asyncio.wait_for(res, 3.0))
+                except ProbeError as e:
+                    outcomes[tag] = ("ProbeError", e.args[0])
+                except asyncio.TimeoutError:
+                    outcomes[tag] = ("unresolved",)
+                except BaseException as e:  # noqa: BLE001
+                    outcomes[tag] = (type(e).__name__, str(e)[:40])
+            elif isinstance(res, BaseException):
+                outcomes[tag] = (type(res).__name__, str(res)[:40])
+            else:
+                outcomes[tag] = ("returned", res)
+        # barrier, then stop the owner loop
+        done = threading.Event()
+        box["loop"].call_soon_threadsafe(done.set)
+        for _ in range(3000):
+            if done.is_set():
+                break
+            await asyncio.sleep(0.001)
+        box["loop"].call_soon_threadsafe(box["loop"].stop)
+        while th.is_alive():
+            await asyncio.sleep(0.001)
+        with probe.lock:
+            log = list(probe.log)
+        by_tag = {}
+        for (tag, kind, ident, lp) in log:
+            by_tag.setdefault(tag, []).append((ident, lp))
+        if early:
+            acc.violation("C20/thread/body-ran-off-the-owner-loop", f"a call executed while the owner loop was not running: {early[:2]}",
+                          {"phase": "paused"})
+        for (tag, kind, when, res) in pend:
+            acc.case()
+            case = {"phase": "owner loop open, not running (" + when + ")", "kind": kind, "outcome": repr(outcomes[tag])}
+            ex = by_tag.get(tag, [])
+            if any(ident != box["ident"] or lp != id(box["loop"]) for ident, lp in ex):
+                acc.violation("C20/thread/body-ran-off-the-owner-loop", f"{kind} executed on {ex}, owner thread is {box['ident']}", case)
+            want = {"co_value": ("value", ("v", tag)), "co_raise": ("ProbeError", tag)}.get(kind, ("returned", None))
+            if len(ex) != 1:
+                acc.violation("C20/exec/queued-call-not-executed-once",
+                              f"{kind} issued while the owner's loop was open but not running ({when}) executed {len(ex)} times once the loop ran", case)
+            elif outcomes[tag] != want:
+                key = "C20/relay/coroutine-result" if kind.startswith("co_") else "C20/relay/plain-call-must-return-nothing"
+                acc.violation(key, f"{kind} ({when}) gave {outcomes[tag]}, expected {want}", case)
+            else:
+                acc.hit("queued_while_not_running_" + when.replace("-", "_"))
+            acc.nontrivial((kind, "other", when, outcomes[tag][0], 0))
+            acc.state((kind, "other", when, outcomes[tag][0]))
+
     async def main():
         rnd = random.Random(desc["seed"])
         for rd in range(desc["rounds"]):
+            await paused_owner_phase(rd)
             thread = bt.EventLoopThread()
             complete = await thread.start()
             owner_loop = thread.loop
@@ -234,8 +371,18 @@ def run_shard(desc) -> Acc:
                 owner_ident.append(threading.get_ident())
 
             await thread.run_coroutine_threadsafe(whoami())
+            # wrappers looked up once and called later from elsewhere (cb = proxy.method is how
+            # callbacks are handed around): looked up on the owner loop, on this (another) loop
+            saved_on_owner = {}
+
+            async def lookup_on_owner():
+                saved_on_owner.update(lookup_all(proxy))
+
+            await thread.run_coroutine_threadsafe(lookup_on_owner())
+            saved_on_main = lookup_all(proxy)
             # ---------------- running
-            ths = [threading.Thread(target=caller_thread, args=(proxy, desc["burst"], "running", desc["seed"] * 31 + rd * 7 + k, None))
+            ths = [threading.Thread(target=caller_thread, args=(proxy, desc["burst"], "running", desc["seed"] * 31 + rd * 7 + k, None,
+                                                                (saved_on_owner, saved_on_main)))
                    for k in range(desc["threads"])]
             for th in ths:
                 th.start()
@@ -243,7 +390,8 @@ def run_shard(desc) -> Acc:
             async def owner_burst():
                 r2 = random.Random(desc["seed"] + rd)
                 for _ in range(desc["burst"] // 3):
-                    await one_call(proxy, r2.choice(KINDS), "owner", "running", r2)
+                    sv = r2.choice([None, None, saved_on_main, saved_on_owner])
+                    await one_call(proxy, r2.choice(KINDS), "owner", "running", r2, sv)
 
             await thread.run_coroutine_threadsafe(owner_burst())
             for th in ths:
@@ -297,6 +445,9 @@ def run_shard(desc) -> Acc:
         asyncio.run(main())
     finally:
         inj.uninstall()
+    acc.ev("calls_through_saved_wrappers", saved_calls[0])
+    if saved_calls[0]:
+        acc.hit("wrapper_looked_up_elsewhere")
     acc.ev("yields_injected", inj.total)
     acc.ev("yields_injected_in_dispatch", inj.in_dispatch)
     if inj.in_dispatch:
